@@ -24,6 +24,7 @@ import (
 	"io"
 	"os"
 	"path/filepath"
+	"slices"
 	"sync"
 	"time"
 
@@ -219,6 +220,12 @@ func (p *Provider) ruleSetsChanged(evt fsnotify.Event) error {
 
 	switch {
 	case evt.Has(fsnotify.Create) || evt.Has(fsnotify.Write) || evt.Has(fsnotify.Chmod):
+		if fInfo, statErr := os.Stat(evt.Name); statErr == nil && fInfo.IsDir() {
+			// Not a rule set. It may however be the symbolic link, the rule set files are reached through, as
+			// it is the case with mounted kubernetes config maps, which are updated by replacing that link.
+			return p.ruleSetsReplaced()
+		}
+
 		err = p.ruleSetCreatedOrUpdated(evt.Name)
 	case evt.Has(fsnotify.Remove) || evt.Has(fsnotify.Rename):
 		// a renamed (moved) file is not available under its old name any more
@@ -226,6 +233,35 @@ func (p *Provider) ruleSetsChanged(evt fsnotify.Event) error {
 	}
 
 	return err
+}
+
+// ruleSetsReplaced evaluates all entries of the watched directory anew. Rule sets, which did not change, are
+// not loaded again, and those, which are not available anymore, are unloaded.
+func (p *Provider) ruleSetsReplaced() error {
+	sources, err := p.sources()
+	if err != nil {
+		return err
+	}
+
+	var errs []error
+
+	for _, src := range sources {
+		if err = p.ruleSetCreatedOrUpdated(src); err != nil {
+			errs = append(errs, err)
+		}
+	}
+
+	p.states.Range(func(key, _ any) bool {
+		if fileName, ok := key.(string); ok && !slices.Contains(sources, fileName) {
+			if err = p.ruleSetDeleted(fileName); err != nil {
+				errs = append(errs, err)
+			}
+		}
+
+		return true
+	})
+
+	return errors.Join(errs...)
 }
 
 func (p *Provider) ruleSetCreatedOrUpdated(fileName string) error {
@@ -350,7 +386,9 @@ func (p *Provider) sources() ([]string, error) {
 		for _, entry := range dirEntries {
 			path := filepath.Join(p.src, entry.Name())
 
-			if entry.IsDir() {
+			// symbolic links are followed: an entry may be a link to a directory, as it is the case
+			// with mounted kubernetes config maps
+			if entryInfo, err := os.Stat(path); entry.IsDir() || (err == nil && entryInfo.IsDir()) {
 				p.l.Warn().Str("_path", path).Msg("Ignoring directory")
 
 				continue
